@@ -43,10 +43,10 @@ namespace bxdecay0 {
   std::string dbd_mode_description(const dbd_mode_type) { return ""; }
 }
 struct scripted : public bxdecay0::i_random {
-  std::vector<double> pre; size_t k = 0; unsigned long long s; unsigned long ndraw = 0;
+  std::vector<double> pre; size_t k = 0; unsigned long long s; unsigned long ndraw = 0; bool use_pre = false;
   double operator()() override {
     ndraw++;
-    if (k < pre.size()) return pre[k++];
+    if (use_pre && k < pre.size()) return pre[k++];
     s = s * 6364136223846793005ULL + 1442695040888963407ULL;
     double u = ((s >> 11) + 0.5) * (1.0 / 9007199254740992.0);
     return u;
@@ -62,8 +62,9 @@ int main(int argc, char ** argv) {
   char line[1 << 16];
   std::cerr.setstate(std::ios_base::failbit);
   while (std::fgets(line, sizeof line, f)) {
-    char kind; char name[64]; int level = 0, mode = 0, nev = 1; unsigned long long seed = 1; int off = 0;
+    char kind; char name[64]; int level = 0, mode = 0, nev = 1; static unsigned long long dseed = 1; unsigned long long seed = dseed; int off = 0;
     double ebb1 = -1, ebb2 = -1;
+    if (line[0] == '@') { std::sscanf(line, "@seed %llu", &dseed); continue; }
     scripted rng;
     if (line[0] == 'B') { std::sscanf(line, "%c %63s %d %llu", &kind, name, &nev, &seed); }
     else if (line[0] == 'D') { std::sscanf(line, "%c %63s %d %d %d %llu %lf %lf", &kind, name, &level, &mode, &nev, &seed, &ebb1, &ebb2); }
@@ -90,6 +91,7 @@ int main(int argc, char ** argv) {
     if (dbd && !exc && ier == 0) std::printf(" Qbb=%a e0=%a toall=%a levelE=%d itrans=%d spmax=%a", pars.Qbb, pars.e0, pars.toallevents, pars.levelE, pars.itrans02, pars.spmax);
     std::printf("\n");
     if (ier != 0 || exc) continue;
+    rng.use_pre = true;   // scripted deviates are for the generation phase; initialisation drew from the LCG
     for (int i = 0; i < nev; i++) {
       ev.reset();
       rng.ndraw = 0;
@@ -116,12 +118,13 @@ C_DRIVER = r'''
 int bx_exc;
 unsigned long g_draws;
 static double pre[4096]; static int npre, kpre; static unsigned long long lcg;
+static int use_pre = 0;
 static const char *target_fn = 0;          /* 'R' tasks: scripted deviates go to draws made in this function only */
 static double rec[65536]; static int nrec;
 double bx_draw_at(bx_prng *p, const char *fn) {
   double u;
   g_draws++;
-  if (kpre < npre && (target_fn == 0 || strcmp(fn, target_fn) == 0)) u = pre[kpre++];
+  if (use_pre && kpre < npre && (target_fn == 0 || strcmp(fn, target_fn) == 0)) u = pre[kpre++];
   else {
     lcg = lcg * 6364136223846793005ULL + 1442695040888963407ULL;
     u = ((lcg >> 11) + 0.5) * (1.0 / 9007199254740992.0);
@@ -154,9 +157,10 @@ int main(int argc, char **argv) {
   FILE *f = fopen(argv[1], "r");
   static char line[1 << 16];
   while (fgets(line, sizeof line, f)) {
-    char kind; static char name[64]; int level = 0, mode = 0, nev = 1; unsigned long long seed = 1; int off = 0;
+    char kind; static char name[64]; int level = 0, mode = 0, nev = 1; static unsigned long long dseed = 1; unsigned long long seed = dseed; int off = 0;
     double ebb1 = -1, ebb2 = -1;
-    npre = 0; kpre = 0; target_fn = 0;
+    if (line[0] == '@') { sscanf(line, "@seed %llu", &dseed); continue; }
+    npre = 0; kpre = 0; target_fn = 0; use_pre = 0;
     if (line[0] == 'B') { sscanf(line, "%c %63s %d %llu", &kind, name, &nev, &seed); }
     else if (line[0] == 'D') { sscanf(line, "%c %63s %d %d %d %llu %lf %lf", &kind, name, &level, &mode, &nev, &seed, &ebb1, &ebb2); }
     else if (line[0] == 'S' || line[0] == 'T') {
@@ -193,6 +197,7 @@ int main(int argc, char **argv) {
     if (dbd && !exc && ier == 0) printf(" Qbb=%a e0=%a toall=%a levelE=%d itrans=%d spmax=%a", pars.Qbb, pars.bx_base_helpbb.e0, pars.bx_base_enrange.toallevents, pars.bx_base_enrange.levelE, pars.bx_base_enrange.itrans02, pars.spmax);
     printf("\n");
     if (ier != 0 || exc) continue;
+    use_pre = 1;
     for (int i = 0; i < nev; i++) {
       event__reset(&ev);
       g_draws = 0; bx_exc = 0;
@@ -320,9 +325,11 @@ def maythrow(db):
     return mt
 
 
-def run_tasks(exe, tasks, tag):
+def run_tasks(exe, tasks, tag, seed=None):
     os.makedirs(os.path.join(NAT, 'tasks'), exist_ok=True)
     tf = os.path.join(NAT, 'tasks', '%s.%d.txt' % (tag, os.getpid()))
+    if seed is not None:
+        tasks = ['@seed %d' % seed] + list(tasks)
     open(tf, 'w').write('\n'.join(tasks) + '\n')
     env = dict(os.environ)
     env['ASAN_OPTIONS'] = 'detect_leaks=0'
